@@ -145,7 +145,7 @@ func TestDrive(t *testing.T) {
 	case "hist":
 		nh := envInt("FZ_HISTORIES", 100)
 		if tier == "thorough" {
-			nh = envInt("FZ_HISTORIES", 600)
+			nh = envInt("FZ_HISTORIES", 1000)
 		}
 		hlen := envInt("FZ_HISTLEN", 90)
 		for i := 0; i < nh; i++ {
